@@ -388,8 +388,28 @@ func MatchPrefix(base *Model, units []Op, errored map[int]string, state map[stri
 			ApplyUnit(a, units[j-1]) // ... or it did
 			next = append(next, a)
 		}
-		if len(next) > 8 {
-			next = next[:8]
+		// identical candidates are merged (most failed units touch keys that later units overwrite)
+		if len(next) > 1 {
+			seen := map[string]bool{}
+			var uniq []*Model
+			for _, m := range next {
+				var sb strings.Builder
+				for _, k := range keys {
+					if v, live := m.M[k]; live {
+						fmt.Fprintf(&sb, "%d:%016x;", len(v), core.HashStr(string(v)))
+					} else {
+						sb.WriteString("-;")
+					}
+				}
+				if sg := sb.String(); !seen[sg] {
+					seen[sg] = true
+					uniq = append(uniq, m)
+				}
+			}
+			next = uniq
+		}
+		if len(next) > 256 {
+			next = next[:256]
 		}
 		cands = next
 		check(j)
